@@ -115,6 +115,65 @@ let show_stok t = match t with
   | TKn n -> "K" ^ string_of_int (int_of_z n)
 let show_sout ((t, a), b) = show_stok t ^ "|" ^ show_sdump a ^ "|" ^ show_sdump b
 
+(* ---- mpt++-only operations ---- *)
+let parse_which w = match w with
+  | "value" -> WValue | "font" -> WFont | "alias" -> WAlias | "lfont" -> WLfont | _ -> failwith ("cset " ^ w)
+let parse_req r = match r with
+  | "me" -> QMe | "cptr" -> QCptr | "obj" -> QObj | "meta" -> QMeta | "grp" -> QGrp | "coll" -> QColl
+  | "otherptr" -> QOtherPtr | "str" -> QStr | "fmt0" -> QFmt0 | "color" -> QColor | "lattr" -> QLattr | "line" -> QLine
+  | _ -> QBad
+let rec parse_xops toks = match toks with
+  | [] -> []
+  | "set" :: tg :: n :: s :: r -> XBase (OpSet (tg = "b", parse_name n, parse_src s)) :: parse_xops r
+  | "get" :: tg :: n :: r -> XBase (OpGet (tg = "b", (match parse_name n with Some b -> b | None -> []))) :: parse_xops r
+  | "sp" :: tg :: fl :: n :: s :: r -> XBase (OpSp (tg = "b", z_of_int (int_of_string fl), parse_name n, parse_src s)) :: parse_xops r
+  | "clone" :: tg :: r -> XClone (tg = "b") :: parse_xops r
+  | "cpy" :: tg :: r -> XCpy (tg = "b") :: parse_xops r
+  | "cset" :: tg :: w :: t :: r -> XCset (tg = "b", parse_which w, parse_text t) :: parse_xops r
+  | "conv" :: tg :: q :: r -> XConv (tg = "b", parse_req q) :: parse_xops r
+  | "lreset" :: tg :: r -> XLreset (tg = "b") :: parse_xops r
+  | "gadd" :: tg :: what :: n :: r -> XGadd (tg = "b", what = "axis", parse_name n) :: parse_xops r
+  | "gitem" :: tg :: ty :: n :: p :: t :: r ->
+    let tx, o = cut_tilde (String.sub t 1 (String.length t - 1)) in
+    XGitem (tg = "b", unhex ty, parse_name n, parse_name p, parse_text tx, parse_torc o) :: parse_xops r
+  | "gbind" :: tg :: r -> XGbind (tg = "b") :: parse_xops r
+  | "gtr" :: tg :: r -> XGtr (tg = "b") :: parse_xops r
+  | t :: _ -> failwith ("bad op " ^ t)
+
+let show_cret r = match r with
+  | CrErr e -> "E" ^ string_of_int (int_of_z e) | CrMe -> "me" | CrCptr -> "cptr" | CrObj -> "obj" | CrMeta -> "meta"
+  | CrArr -> "arr" | CrColl -> "coll" | CrColor -> "color" | CrLattr -> "lattr" | CrLine -> "line" | CrGrp -> "grp"
+let show_cpay p = match p with
+  | CpNone -> "" | CpSelf -> ":self"
+  | CpFmt b -> ":" ^ (if b = [] then "" else hexs b)
+  | CpColor c -> ":" ^ show_col c
+  | CpLattr l -> Printf.sprintf ":%02x%02x%02x%02x" (int_of_z l.la_style) (int_of_z l.la_width) (int_of_z l.la_symbol) (int_of_z l.la_size)
+  | CpLine (c, fx) -> ":" ^ show_col c ^ "," ^ hex_of_n 8 fx
+let show_oname n = match n with None -> "~" | Some [] -> "-" | Some b -> hexs b
+let show_bound ax wl =
+  String.concat "" (List.map (fun (n, a) -> Printf.sprintf "a(%s;%s;%d;%d)" (show_oname n) (hex_of_n 16 a.ax_begin)
+                               (int_of_z a.ax_intv) (int_of_z a.ax_format)) ax)
+  ^ String.concat "" (List.map (fun (n, w) -> Printf.sprintf "w(%s;%d)" (show_oname n) (int_of_z w.wl_cyc)) wl)
+let show_ghead h = match h with
+  | GhK -> "K" | GhR -> "R" | GhKn n -> "K" ^ string_of_int (int_of_z n) | GhE e -> "E" ^ string_of_int (int_of_z e)
+  | GhT fl -> "T1:" ^ String.concat "," (List.map (fun f -> string_of_int (int_of_z f)) fl)
+let show_xres r = match r with
+  | XRtok t -> show_rtok t
+  | XBool b -> if b then "B1" else "B0"
+  | XConvR (r, p) -> "V" ^ show_cret r ^ show_cpay p
+  | XGraphR (h, ax, wl) -> show_ghead h ^ ":" ^ show_bound ax wl
+  | XUnsup -> "?"
+let show_xout ((t, a), b) = show_xres t ^ "|" ^ show_dump a ^ "|" ^ show_dump b
+(* specification: convert() and the graph's item handling are the mechanism's own results (taken from the model),
+   the bool of the direct setters is left to the projection *)
+let show_xsout ((t, a), b) ((mt, _), _) =
+  (match t with
+   | XsTok st -> show_stok st
+   | XsBool -> "B"
+   | XsOpen -> show_xres mt
+   | XsUnsup -> "?") ^ "|" ^ show_sdump a ^ "|" ^ show_sdump b
+let abs_of o = List.map (fun e -> (e.pe_name, e.pe_val)) (obj_listed o)
+
 let () =
   let ic = open_in Sys.argv.(1) in
   List.iter (fun line ->
@@ -146,6 +205,26 @@ let () =
         | None -> ["R|11223344"; "qR"]
         | Some c -> ["K|" ^ show_col c; "qK"] @ (if impl = "x" then ["p:" ^ hexs (color_print c) ^ "|" ^ show_col c] else [])) in
       Printf.printf "S %s %s\n" id (String.concat " " stoks)
+    | id :: "x" :: kind :: ops ->
+      (* mpt++ objects: constructor argument behind ':', additional operations, class layout *)
+      let kname, karg = (match String.split_on_char ':' kind with
+        | [k; a] -> k, Some (z_of_int (int_of_string a)) | _ -> kind, None) in
+      let xops = parse_xops ops in
+      if kname = "layout" then begin
+        Printf.printf "M %s %s Z\n" id (String.concat " " (List.map show_xout (lrun (def_layout, def_layout) xops)));
+        let m = lrun (def_layout, def_layout) xops in
+        Printf.printf "S %s %s Z\n" id (String.concat " "
+          (List.map2 show_xsout (lsrun (layout_defaults, layout_defaults) xops) m))
+      end else begin
+        let kn = n_of_int (kind_index kname) in
+        let o = cxx_construct kn karg in
+        let st = { xa = o; xb = o; xga = gx_empty; xgb = gx_empty } in
+        let m = xrun st xops in
+        Printf.printf "M %s %s Z\n" id (String.concat " " (List.map show_xout m));
+        let sk = kind_no kn in
+        let d0 = abs_of o in
+        Printf.printf "S %s %s Z\n" id (String.concat " " (List.map2 show_xsout (xsrun sk (d0, d0) xops) m))
+      end
     | id :: impl :: kind :: ops ->
       let kn = n_of_int (kind_index kind) in
       (* mpt++ objects start from their constructors (proved to show the same defaults and to meet the invariant) *)
